@@ -228,10 +228,11 @@ def mk_view_tvec(P, shape, reuse=None):
     v = P.name("v")
     f = shape[0]
     if f == "tvector" and P.rng.random() < 0.5:
-        if off + n == N and off > 0 and P.rng.random() < 0.6:
+        # slice<I,J>(v) with J == N is ambiguous with slice<I>(v) (both templates match): the tail is
+        # always taken with slice<I>
+        if off + n == N:
             return Opd(v, "slice<I>", st, c, shape, ["auto %s = slice<%d>(%s);" % (v, off, o)])
-        if off + n <= N and n > 0:
-            return Opd(v, "slice<I,J>", st, c, shape, ["auto %s = slice<%d, %d>(%s);" % (v, off, off + n, o)])
+        return Opd(v, "slice<I,J>", st, c, shape, ["auto %s = slice<%d, %d>(%s);" % (v, off, off + n, o)])
     if off == 0 and P.rng.random() < 0.5:
         return Opd(v, "View<%s>@tvector" % f, st, c, shape, ["auto %s = map<%s>(%s);" % (v, cxxtype(shape), o)])
     return Opd(v, "View<%s>@tvector+offset" % f, st, c, shape, ["auto %s = map<%s, %d>(%s);" % (v, cxxtype(shape), off, o)])
@@ -734,8 +735,6 @@ def gen_program(pid, rng, group):
     else:
         form = choose(rng, [("assign", 12), ("scale", 2), ("elem", 2), ("lazy", 1)])
     D = new_leaf(P, shape, [], want_writable=True)
-    if f == "matrix":
-        D = P.opds[-1]
     ctx = {"dst": D, "leaves": [], "alias": "none", "allow_eval": f in FIXED}
     info = {"pid": pid, "T": P.T, "shape": list(shape), "form": form, "dst": D.kind}
     body = []
